@@ -456,6 +456,22 @@ class Analysis:
             elif isinstance(el, dict) and "f" in el:
                 # field of a downcast?
                 if e.k == "downcast":
+                    # payload of a value whose construction is in sight: (Ok(x) as Ok).0 = x,
+                    # (branch(Ok(x)) as Continue).0 = x  (threaded paths make these definitions unique)
+                    base = e.a[0]
+                    bs = base
+                    while bs.k in ("mutated",):
+                        bs = bs.a[0]
+                    if bs.k == "call" and bs.a[0].trait == "std::ops::Try" and bs.a[0].name == "branch" and bs.a[1] and e.a[1] == "Continue":
+                        inner = bs.a[1][0]
+                        while inner.k in ("mutated",):
+                            inner = inner.a[0]
+                        if inner.k == "agg" and inner.a[0] in ("std::result::Result::Ok", "std::option::Option::Some") and isinstance(inner.a[1], dict) and el["name"] in inner.a[1]:
+                            e = inner.a[1][el["name"]]
+                            continue
+                    if bs.k == "agg" and isinstance(bs.a[1], dict) and bs.a[0].endswith("::" + str(e.a[1])) and el["name"] in bs.a[1]:
+                        e = bs.a[1][el["name"]]
+                        continue
                     e = E("vfield", e.a[0], e.a[1], el["name"])
                 elif e.k == "agg" and isinstance(e.a[1], dict) and el["name"] in e.a[1] and e.a[0] in ("tuple", "array"):
                     # component of a tuple that was just built
